@@ -654,3 +654,188 @@ func boolStepCond(p *Prog, cond ssa.Value) (boolStep, *ssa.Call, bool) {
 	}
 	return bs, c, true
 }
+
+// R-C01-BALANCE. The nesting counter bounds the parser's recursion only if every function gives back exactly what it
+// took: a function that subtracts more than it added makes the counter drift down with every expression that was
+// parsed, and a plain sibling in front of a nested part then pays for it — `[0,[0,[0,…]]]` nests without bound. For
+// every function of the parser: the constant part of what its deferred closure subtracts from a counter equals the
+// constants it adds through depth steps outside loops; a plain decrement `counter -= k` stands behind a step `+ k`
+// of the same function.
+func ruleC01Balance(p *Prog, a *Anchors, r *Report) {
+	r.Begin("R-C01-BALANCE", "a parser function gives back to the nesting counter exactly what it took: the constant part of a deferred decrement equals the depth steps taken outside loops, and every plain decrement stands behind a step of the same size", 4)
+	stepConst := func(in ssa.Instruction) (int64, bool) {
+		c, ok := in.(*ssa.Call)
+		if !ok || c.Common().StaticCallee() == nil || !depthStepFunc(p, c.Common().StaticCallee()) {
+			return 0, false
+		}
+		for _, arg := range c.Common().Args {
+			if k, isK := constInt(arg); isK {
+				return k, true
+			}
+		}
+		return 0, false
+	}
+	// a store `X.f = X.f - v`: the constant part of v
+	decOf := func(in ssa.Instruction) (fa *ssa.FieldAddr, k int64, variable bool, ok bool) {
+		st, isSt := in.(*ssa.Store)
+		if !isSt {
+			return nil, 0, false, false
+		}
+		fa, isFA := st.Addr.(*ssa.FieldAddr)
+		if !isFA {
+			return nil, 0, false, false
+		}
+		sub, isSub := st.Val.(*ssa.BinOp)
+		if !isSub || sub.Op != token.SUB {
+			return nil, 0, false, false
+		}
+		if u, isU := sub.X.(*ssa.UnOp); !isU || u.Op != token.MUL {
+			return nil, 0, false, false
+		} else if fb, isFB := u.X.(*ssa.FieldAddr); !isFB || fb.Field != fa.Field || !types.Identical(fb.X.Type(), fa.X.Type()) {
+			return nil, 0, false, false
+		}
+		if !c01AddedSomewhere(p, fa) {
+			return nil, 0, false, false
+		}
+		var walk func(v ssa.Value) bool
+		walk = func(v ssa.Value) bool {
+			if c, isK := constInt(v); isK {
+				k += c
+				return true
+			}
+			if bo, isBo := v.(*ssa.BinOp); isBo && bo.Op == token.ADD {
+				return walk(bo.X) && walk(bo.Y)
+			}
+			variable = true
+			return true
+		}
+		walk(sub.Y)
+		return fa, k, variable, true
+	}
+	n := 0
+	for _, f := range p.inPkgFuncsSorted(p.allFuncSet()) {
+		if f.Parent() != nil || f.Signature.Recv() == nil || structOf(f.Signature.Recv().Type()) == nil || structOf(f.Signature.Recv().Type()).Obj().Name() != "Parser" {
+			continue
+		}
+		// steps outside loops, by constant: calls of the step helper, or the counter incremented in place
+		var entrySteps int64
+		for _, b := range f.Blocks {
+			for _, in := range b.Instrs {
+				if innermostLoopHeader(b) != nil {
+					continue
+				}
+				if k, ok := stepConst(in); ok {
+					// a step that the function notes in a local count (operands++) is given back through that count
+					noted := false
+					for _, x := range b.Instrs {
+						if st, isSt := x.(*ssa.Store); isSt {
+							if cell, isCell := st.Addr.(*ssa.Alloc); isCell && isIntType(cell.Type().(*types.Pointer).Elem()) {
+								if add, isAdd := st.Val.(*ssa.BinOp); isAdd && add.Op == token.ADD {
+									if u, isU := add.X.(*ssa.UnOp); isU && u.X == ssa.Value(cell) {
+										noted = true
+									}
+								}
+							}
+						}
+					}
+					if !noted {
+						entrySteps += k
+					}
+				}
+				if st, isSt := in.(*ssa.Store); isSt {
+					if fa, isFA := st.Addr.(*ssa.FieldAddr); isFA {
+						if add, isAdd := st.Val.(*ssa.BinOp); isAdd && add.Op == token.ADD {
+							if u, isU := add.X.(*ssa.UnOp); isU && u.Op == token.MUL {
+								if fb, isFB := u.X.(*ssa.FieldAddr); isFB && fb.Field == fa.Field && types.Identical(fb.X.Type(), fa.X.Type()) {
+									if k, isK := constInt(add.Y); isK && k > 0 {
+										entrySteps += k
+									}
+								}
+							}
+						}
+					}
+				}
+			}
+		}
+		// deferred closures
+		for _, b := range f.Blocks {
+			for _, in := range b.Instrs {
+				d, ok := in.(*ssa.Defer)
+				if !ok {
+					continue
+				}
+				mc, ok := d.Call.Value.(*ssa.MakeClosure)
+				if !ok {
+					continue
+				}
+				g := mc.Fn.(*ssa.Function)
+				for _, gb := range g.Blocks {
+					for _, gi := range gb.Instrs {
+						if _, k, _, isDec := decOf(gi); isDec {
+							n++
+							key := p.FuncName(f) + ":deferred-decrement"
+							if k == entrySteps {
+								r.OK(key, p.InstrPos(gi), "gives back %d plus what its loop counted; took %d outside loops", k, entrySteps)
+							} else {
+								r.Bad(key, p.InstrPos(gi), "%s gives back %d (plus what its loop counted) to the nesting counter on exit but took only %d through depth steps outside its loops: every expression parsed through it leaves the counter %d lower than it found it, so siblings parsed earlier pay for the nesting of later ones and the bound no longer bounds the recursion", p.FuncName(f), k, entrySteps, k-entrySteps)
+							}
+						}
+					}
+				}
+			}
+		}
+		// plain decrements
+		for _, b := range f.Blocks {
+			for _, in := range b.Instrs {
+				if _, k, variable, isDec := decOf(in); isDec && !variable {
+					n++
+					key := p.FuncName(f) + ":decrement"
+					if MustPass(in, func(x ssa.Instruction) bool {
+						kk, ok := stepConst(x)
+						return ok && kk == k
+					}) {
+						r.OK(key, p.InstrPos(in), "stands behind a step of the same size")
+					} else {
+						r.Bad(key, p.InstrPos(in), "%s subtracts %d from the nesting counter on a path on which it did not add %d before", p.FuncName(f), k, k)
+					}
+				}
+			}
+		}
+	}
+	if n == 0 {
+		r.Unk("none", "-", "no decrement of a nesting counter found in the parser")
+	}
+}
+
+// c01AddedSomewhere: some function of the package stores <the same field> + something into the field fa denotes.
+func c01AddedSomewhere(p *Prog, fa *ssa.FieldAddr) bool {
+	n := structOf(fa.X.Type())
+	if n == nil || !isIntType(fa.Type().(*types.Pointer).Elem()) {
+		return false
+	}
+	for _, f := range p.Funcs {
+		if !p.InPkg(f) {
+			continue
+		}
+		for _, b := range f.Blocks {
+			for _, in := range b.Instrs {
+				st, ok := in.(*ssa.Store)
+				if !ok {
+					continue
+				}
+				fb, ok := st.Addr.(*ssa.FieldAddr)
+				if !ok || fb.Field != fa.Field || structOf(fb.X.Type()) != n {
+					continue
+				}
+				if add, ok := st.Val.(*ssa.BinOp); ok && add.Op == token.ADD {
+					if u, ok := add.X.(*ssa.UnOp); ok && u.Op == token.MUL {
+						if fc, ok := u.X.(*ssa.FieldAddr); ok && fc.Field == fa.Field && structOf(fc.X.Type()) == n {
+							return true
+						}
+					}
+				}
+			}
+		}
+	}
+	return false
+}
